@@ -687,6 +687,78 @@ def suite_dask_mixed(ctx):
                     break
 
 
+def suite_fornav_masked(ctx):
+    """ewa.fornav with numpy MaskedArray input (finding F36): masked pixels are invalid pixels. The result must be what the same data gives
+    with the masked pixels marked by the fill value (NaN for floats, the fill for integers), returned as a masked array whose mask is
+    exactly the fill cells; single arrays and tuples of arrays, average and maximum-weight mode."""
+    import warnings
+
+    from pyresample import ewa
+    from pyresample.geometry import AreaDefinition, SwathDefinition
+    r = ctx.rng
+    areas = [("laea", {"proj": "laea", "lat_0": 52.0, "lon_0": 10.0, "ellps": "WGS84"}, (-120000.0, -100000.0, 120000.0, 100000.0)),
+             ("longlat", {"proj": "longlat", "datum": "WGS84"}, (0.0, 40.0, 12.0, 50.0))]
+    for rep in range(6 if ctx.quick else 40):
+        aname, proj, ext = r.choice(areas)
+        gw, gh = r.randrange(8, 20), r.randrange(8, 20)
+        with warnings.catch_warnings():
+            warnings.simplefilter("ignore")
+            area = AreaDefinition("t", "t", "t", proj, gw, gh, ext)
+        rps = r.choice([2, 5, 10])
+        srows, scols = rps * r.randrange(3, 7), r.randrange(12, 30)
+        lons, lats = _swath_for(r, area, srows, scols, r.uniform(-0.2, 0.2))
+        with warnings.catch_warnings():
+            warnings.simplefilter("ignore")
+            _, cols, rows = ewa.ll2cr(SwathDefinition(lons, lats), area)
+        dtype = r.choice([np.float32, np.float64, np.int8])
+        maxw = r.random() < 0.3
+        n_arr = r.choice([1, 1, 2])
+        arrays, refs, fills = [], [], []
+        for k in range(n_arr):
+            base = (np.arange(srows * scols).reshape(srows, scols) % 50 + 1 + 10 * k)
+            mask = np.zeros((srows, scols), bool)
+            y0, x0 = r.randrange(0, srows - 2), r.randrange(0, scols - 3)
+            mask[y0:y0 + r.randrange(2, 6), x0:x0 + r.randrange(2, 8)] = True
+            for _ in range(srows * scols // 10):
+                mask[r.randrange(srows), r.randrange(scols)] = True
+            hidden = np.where(mask, 100 if dtype == np.int8 else 1000, base).astype(dtype)     # what sits under the mask must never show
+            arrays.append(np.ma.masked_array(hidden, mask=mask))
+            fill = -99 if dtype == np.int8 else np.nan
+            refs.append(np.where(mask, fill, base).astype(dtype))
+            fills.append(fill)
+        fill = fills[0]
+        kw = dict(rows_per_scan=rps, maximum_weight_mode=maxw, fill=fill)
+        inp = {"area": aname, "grid": [gh, gw], "swath": [srows, scols], "rows_per_scan": rps, "dtype": np.dtype(dtype).name, "arrays": n_arr,
+               "maximum_weight_mode": maxw, "masked_pixels": [int(a.mask.sum()) for a in arrays]}
+        try:
+            with warnings.catch_warnings():
+                warnings.simplefilter("ignore")
+                _, out_m = ewa.fornav(cols, rows, area, tuple(arrays) if n_arr > 1 else arrays[0], **kw)
+                _, out_r = ewa.fornav(cols.copy(), rows.copy(), area, tuple(refs) if n_arr > 1 else refs[0], **kw)
+        except Exception as e:  # noqa
+            ctx.fail("ewa.fornav", f"masked-array input raised {type(e).__name__}: {str(e)[:120]}", inp, size=srows * scols)
+            ctx.case("fornav-masked", (rep, aname, gw, gh, srows, scols, rps, np.dtype(dtype).name, maxw, n_arr), nontrivial=True)
+            continue
+        outs_m = list(out_m) if n_arr > 1 else [out_m]
+        outs_r = list(out_r) if n_arr > 1 else [out_r]
+        for k, (om, orf) in enumerate(zip(outs_m, outs_r)):
+            is_fill = np.isnan(orf) if dtype != np.int8 else (orf == fill)
+            probs = []
+            if not isinstance(om, np.ma.MaskedArray):
+                probs.append("the result is not a masked array")
+            got_mask = np.ma.getmaskarray(om)
+            if not np.array_equal(got_mask, is_fill):
+                probs.append(f"mask differs from the fill cells of the reference in {int((got_mask != is_fill).sum())} cells")
+            a, b = np.ma.filled(om.astype(float), np.nan)[~is_fill & ~got_mask], orf.astype(float)[~is_fill & ~got_mask]
+            if a.size and not np.allclose(a, b, rtol=1e-5, atol=1e-5):
+                j = int(np.argmax(np.abs(a - b)))
+                probs.append(f"values differ from the result for the same data with the masked pixels marked as fill (e.g. {a[j]} vs {b[j]}, "
+                             f"{int((~np.isclose(a, b, rtol=1e-5, atol=1e-5)).sum())} cells): masked pixels were averaged as data")
+            if probs:
+                ctx.fail("ewa.fornav", "MaskedArray input: " + "; ".join(probs), {**inp, "array": k}, size=srows * scols)
+        ctx.case("fornav-masked", (rep, aname, gw, gh, srows, scols, rps, np.dtype(dtype).name, maxw, n_arr), nontrivial=True, sample={"input": inp})
+
+
 def run(ctx):
     import traceback
     try:
@@ -694,7 +766,7 @@ def run(ctx):
         ctx.note(ewa_build.install_fornav())
     except Exception as e:  # noqa
         ctx.note(f"could not rebuild _fornav ({type(e).__name__}: {e}); using the in-tree module")
-    for suite in (suite_ll2cr, suite_cells, suite_combine, suite_dask, suite_dask_mixed):
+    for suite in (suite_ll2cr, suite_cells, suite_combine, suite_dask, suite_dask_mixed, suite_fornav_masked):
         try:
             suite(ctx)
         except Exception as e:  # noqa
